@@ -86,3 +86,142 @@ Theorem C07_walks_bfs_exhaustive :
           List.In t (layer state st_eq_dec (acts G) (start :: nil) d)).
 Proof. exact @walks_bfs_exhaustive. Qed.
 Print Assumptions C07_walks_bfs_exhaustive.
+
+From V Require Import Base Tensor Graph GraphProofs GraphImpl Hash Def Paths BfsStep Bfs BfsRun BfsProofs PathsProofs Mitm MitmProofs PathRun MitmFind Interactive InteractiveBetween Beam BeamProofs Walks WalksProofs AlgoRun InstPerm InstSmall InstBfs InstPaths InstShared InstMatrix InstMatrixBfs InstBeam InstWalks.
+
+(* END TO END for impl_of d: classic walks, NO hash hypothesis (shape, step counter, start rows, every row a neighbour of the row one block earlier under some generator of d, reachability in exactly y steps) *)
+Theorem C07_perm_classic_spec :
+  forall d : gdesc,
+         wf_perm_desc d ->
+         forall (start : state) (width length_ : nat) (draws : list (list nat)) 
+           (x : list state) (y : list nat),
+         1 <= length_ ->
+         length_ - 1 <= length draws ->
+         List.Forall
+           (fun dr : list nat =>
+            length dr = width /\ List.Forall (fun g : nat => g < length (desc_perms d)) dr) draws ->
+         walks_classic (impl_of d) width length_ start draws = (x, y) ->
+         length x = width * length_ /\
+         length y = width * length_ /\
+         (forall i : nat, i < width * length_ -> List.nth i y 0 = PeanoNat.Nat.div i width) /\
+         (forall i : nat, i < width -> List.nth i x nil = start) /\
+         (forall i : nat,
+          i + width < width * length_ ->
+          exists p : list nat,
+            List.In p (desc_perms d) /\
+            List.nth (i + width) x nil = Perm.apply_perm BinNums.Z0 p (List.nth i x nil)) /\
+         (forall i : nat,
+          i < width * length_ ->
+          reach state (acts (impl_of d)) (start :: nil) (List.nth i y 0) (List.nth i x nil)).
+Proof. exact @walks_perm_classic_spec. Qed.
+Print Assumptions C07_perm_classic_spec.
+
+(* non-backtracking walks on impl_of d, no hash hypothesis *)
+Theorem C07_perm_nbt_spec :
+  forall d : gdesc,
+         wf_perm_desc d ->
+         forall (start : state) (width length_ depth : nat) (perms : list (list nat))
+           (x : list state) (y : list nat),
+         1 <= length_ ->
+         1 <= width ->
+         List.Forall (fun p : list nat => List.Forall (fun i : nat => i < length p) p) perms ->
+         walks_nbt (impl_of d) width length_ depth start perms = Ok (x, y) ->
+         length x = length y /\
+         (forall i : nat, i < width -> List.nth i x nil = start /\ List.nth i y 0 = 0) /\
+         (forall i : nat,
+          i < length x ->
+          reach state (acts (impl_of d)) (start :: nil) (List.nth i y 0) (List.nth i x nil)).
+Proof. exact @walks_perm_nbt_spec. Qed.
+Print Assumptions C07_perm_nbt_spec.
+
+(* BFS-mode walk at least n!+1 wide: every vertex exactly once with its true distance (NoColl only) *)
+Theorem C07_perm_bfs_exhaustive_fact :
+  forall d : gdesc,
+         wf_perm_desc d ->
+         NoCollOn (impl_of d) (Ustates d) ->
+         forall start : state,
+         Ustates d start ->
+         forall (width length_ : nat) (perms : list (list nat)) (x : list state) 
+           (y : list nat) (D : nat),
+         Factorial.fact (desc_n d) + 1 <= width ->
+         layer state st_eq_dec (acts (impl_of d)) (start :: nil) (S D) = nil ->
+         D < length_ ->
+         walks_bfs (impl_of d) width length_ start perms = Ok (x, y) ->
+         List.NoDup x /\
+         (forall (t : state) (k : nat),
+          (exists i : nat, i < length x /\ List.nth i x nil = t /\ List.nth i y 0 = k) <->
+          List.In t (layer state st_eq_dec (acts (impl_of d)) (start :: nil) k)).
+Proof. exact @walks_perm_bfs_exhaustive_fact. Qed.
+Print Assumptions C07_perm_bfs_exhaustive_fact.
+
+(* BFS-mode walk, one-word identity hash: no hash hypothesis *)
+Theorem C07_perm_bfs_spec_unconditional :
+  forall d : gdesc,
+         wf_perm_desc d ->
+         g_hasher d = HIdentity ->
+         single_word d ->
+         forall start : state,
+         Ustates d start ->
+         forall (width length_ : nat) (perms : list (list nat)) (x : list state) (y : list nat),
+         1 <= length_ ->
+         1 <= width ->
+         List.Forall
+           (fun p : list nat => List.NoDup p /\ List.Forall (fun i : nat => i < length p) p) perms ->
+         walks_bfs (impl_of d) width length_ start perms = Ok (x, y) ->
+         length x = length y /\
+         List.nth 0 x nil = start /\
+         List.nth 0 y 1 = 0 /\
+         List.NoDup x /\
+         (forall i : nat,
+          i < length x ->
+          reach state (acts (impl_of d)) (start :: nil) (List.nth i y 0) (List.nth i x nil)).
+Proof. exact @walks_perm_bfs_spec_unconditional. Qed.
+Print Assumptions C07_perm_bfs_spec_unconditional.
+
+(* classic walks on matrix groups, no hypothesis beyond the kind of the description *)
+Theorem C07_matrix_classic_spec :
+  forall (d : gdesc) (modulo : BinNums.Z) (n m : nat) (mats : list (list (list BinNums.Z))),
+         g_kind d = GMatrix modulo n m mats ->
+         forall (start : state) (width length_ : nat) (draws : list (list nat)) 
+           (x : list state) (y : list nat),
+         1 <= length_ ->
+         length_ - 1 <= length draws ->
+         List.Forall
+           (fun dr : list nat => length dr = width /\ List.Forall (fun g : nat => g < length mats) dr)
+           draws ->
+         walks_classic (impl_of d) width length_ start draws = (x, y) ->
+         length x = width * length_ /\
+         length y = width * length_ /\
+         (forall i : nat, i < width * length_ -> List.nth i y 0 = PeanoNat.Nat.div i width) /\
+         (forall i : nat, i < width -> List.nth i x nil = start) /\
+         (forall i : nat,
+          i + width < width * length_ ->
+          exists M : list (list BinNums.Z),
+            List.In M mats /\
+            List.nth (i + width) x nil = Matrix.mat_apply modulo n m M (List.nth i x nil)) /\
+         (forall i : nat,
+          i < width * length_ ->
+          reach state (acts (impl_of d)) (start :: nil) (List.nth i y 0) (List.nth i x nil)).
+Proof. exact @walks_matrix_classic_spec. Qed.
+Print Assumptions C07_matrix_classic_spec.
+
+(* BFS-mode walk on matrix groups *)
+Theorem C07_matrix_bfs_exhaustive :
+  forall d : gdesc,
+         wf_matrix_core d = true ->
+         NoCollMat d ->
+         forall start : state,
+         Umat d start ->
+         forall (width length_ : nat) (perms : list (list nat)) (x : list state) 
+           (y : list nat) (D : nat),
+         1 <= width ->
+         (forall i : nat, length (layer state st_eq_dec (acts (impl_of d)) (start :: nil) i) <= width) ->
+         layer state st_eq_dec (acts (impl_of d)) (start :: nil) (S D) = nil ->
+         D < length_ ->
+         walks_bfs (impl_of d) width length_ start perms = Ok (x, y) ->
+         List.NoDup x /\
+         (forall (t : state) (k : nat),
+          (exists i : nat, i < length x /\ List.nth i x nil = t /\ List.nth i y 0 = k) <->
+          List.In t (layer state st_eq_dec (acts (impl_of d)) (start :: nil) k)).
+Proof. exact @walks_matrix_bfs_exhaustive. Qed.
+Print Assumptions C07_matrix_bfs_exhaustive.
